@@ -393,15 +393,54 @@ def order_in(body, pats):
     return [n for _, n in sorted(found)]
 
 
+def probe_open_flags():
+    """The flags the COMPILED sinks pass to open(2) in every mode (strace of `rrh fsink-open-probe`), as
+    OpenOptions-level flags: {(sink, mode): flags}. Empty when strace or the harness binary is not available."""
+    import subprocess
+    import tempfile
+    here = os.path.dirname(os.path.dirname(os.path.abspath(__file__)))
+    rrh = os.environ.get("RRH_BIN") or os.path.join(here, "harness", "target", "release", "rrh")
+    res = {}
+    try:
+        with tempfile.NamedTemporaryFile(suffix=".strace") as tf:
+            r = subprocess.run(["strace", "-f", "-e", "trace=openat,open", "-o", tf.name, rrh, "fsink-open-probe"],
+                               stdout=subprocess.DEVNULL, stderr=subprocess.DEVNULL, timeout=120)
+            if r.returncode != 0:
+                return {}
+            for line in open(tf.name):
+                m = re.search(r'open(?:at)?\((?:AT_FDCWD, )?"[^"]*probe-(\w+)-(\w+)", ([A-Z_|0-9x]+)', line)
+                if m:
+                    fl = set(m.group(3).split("|"))
+                    res[(m.group(1), m.group(2))] = {
+                        "read": "O_RDWR" in fl or ("O_RDONLY" in fl and "O_WRONLY" not in fl),
+                        "write": "O_WRONLY" in fl or "O_RDWR" in fl,
+                        "append": "O_APPEND" in fl,
+                        "create": "O_CREAT" in fl and "O_EXCL" not in fl,
+                        "createNew": "O_CREAT" in fl and "O_EXCL" in fl,
+                        "truncate": "O_TRUNC" in fl}
+    except Exception:
+        return {}
+    return res
+
+
 def gen_filesink():
     src = strip_rust(open(os.path.join(REPO, "src", "file_sink.rs")).read())
     bodies = fn_bodies(src)
+    probed = probe_open_flags()
     out = ["import RR.Model.FileSink", "",
            "/-! GENERATED by tools/extract.py from /repo/src/file_sink.rs on every run: the open flags of every mode of",
            "both sinks, the order of write / flush / consume inside each work(), and whether each I/O result is propagated with `?`. Do not edit. -/",
            "namespace RR.Gen", "open RR.FileSink", ""]
     for sink, impl_pat, lname in [("FileSink", r"^<T: Copy> FileSink<T>$", "fileSink"),
                                   ("NoCopyFileSink", r"^<T> NoCopyFileSink<T>$", "ncFileSink")]:
+        if all((sink, mode) in probed for mode in ["Create", "Overwrite", "Append"]):
+            # from the compiled code (strace): independent of how the source builds its OpenOptions
+            for mode in ["Create", "Overwrite", "Append"]:
+                f = probed[(sink, mode)]
+                out.append("def %s%s : OpenFlags := { read := %s, write := %s, append := %s, create := %s, createNew := %s, truncate := %s }"
+                           % (lname, mode, *[str(f[k]).lower() for k in ["read", "write", "append", "create", "createNew", "truncate"]]))
+            continue
+        # (stand-alone use without strace / harness: from the source text)
         new = find_fn(bodies, impl_pat, "new")
         if not re.search(r"Mode\s*::\s*Create\s*=>", new):
             # the open code may live in a private helper called from new()
